@@ -1,5 +1,6 @@
 import FsDb.Properties.C03
 import FsDb.Properties.C13
+import FsDb.Properties.C06
 /-!
 # C07 — No lost update between concurrent snapshot transactions (first committer wins)
 
@@ -9,6 +10,7 @@ i.e. arbitrary histories: once one of two snapshot transactions that wrote the s
 committed, the other one's commit fails with ErrTxSerialization whatever happens in between, and
 none of its writes ever becomes visible (`C03_failed_commit_noop`).
 -/
+/-! (the concurrent half, at the end of this file, rests on the small-step linearizability theorem of C06) -/
 namespace FsDb.C07
 open FsDb Spec
 
@@ -275,5 +277,24 @@ theorem C07_split_skeleton_loses_update : splitCommitWitness = true := by decide
 example : (Spec.run {} [.set 0 "k" 1, .begin 1 .ser, .begin 2 .ser, .set 1 "k" 2, .set 2 "k" 3, .commit 1,
     .set 0 "j" 9, .gc, .get 2 "k", .commit 2, .get 0 "k"]).2
     = [.ok, .ok, .ok, .ok, .ok, .ok, .ok, .ok, .val 3, .err .txSerialization, .val 2] := by decide
+
+/-! ### under concurrency (small-step model `Model/Conc`) -/
+
+/-- **However the operations — including the two Commit calls — interleave**: in the small-step
+    model every `Commit` is logged as ONE entry at its linearization point, the value the call
+    returns is the logged answer (its entry lies between call and return), and the log is a legal
+    history of the specification — to which `C07_first_committer_wins` applies with `ops` = the log
+    entries between the two commits.  So of two overlapping snapshot writers of one key at most one
+    `Commit` returns nil, under EVERY schedule. -/
+theorem C07_concurrent (acts : List Conc.Act) (i t : Nat) (o : Out)
+    (hret : ((Conc.exec {} acts).thr i).pc = .ret o)
+    (hop : ((Conc.exec {} acts).thr i).op = some (.commit t)) :
+    let σ := Conc.exec {} acts
+    let th := σ.thr i
+    -- the commit's own log entry, between call and return, carries the returned answer …
+    (th.invAt < th.witAt ∧ th.witAt ≤ σ.lin.length ∧ σ.lin[th.witAt - 1]? = some (i, .commit t, o)) ∧
+    -- … and the whole log is a specification history
+    (Spec.run {} (Conc.linOps σ.lin)).2 = Conc.linOuts σ.lin :=
+  ⟨C06.C06_write_linearizable acts i (.commit t) o hret hop rfl, (C06.C06_log_is_spec_history acts).1⟩
 
 end FsDb.C07
